@@ -562,6 +562,19 @@ def app_process__Process_getHealth : List String := [
   "return p.procState.Health",
   "}"]
 
+/-- src/app/process.go:Process.getLogPath -/
+def app_process__Process_getLogPath : List String := [
+  "func (p *Process) getLogPath() string {",
+  "logLocation := p.procConf.LogLocation",
+  "if strings.Contains(logLocation, LogReplicaNum) {",
+  "replicaStr := strconv.Itoa(p.procConf.ReplicaNum)",
+  "logLocation = strings.Replace(logLocation, LogReplicaNum, replicaStr, -1)",
+  "} else if p.procConf.Replicas > 1 {",
+  "logLocation = fmt.Sprintf(\"%s.%d\", logLocation, p.procConf.ReplicaNum)",
+  "}",
+  "return logLocation",
+  "}"]
+
 /-- src/app/process.go:Process.getName -/
 def app_process__Process_getName : List String := [
   "func (p *Process) getName() string {",
@@ -585,6 +598,36 @@ def app_process__Process_getProcessEnvironment : List String := [
   "env = append(env, p.procConf.Environment...)",
   "env = append(env, \"PC_PROC_NAME=\"+p.procConf.Name, EnvReplicaNum+\"=\"+strconv.Itoa(p.procConf.ReplicaNum))",
   "return env",
+  "}"]
+
+/-- src/app/process.go:Process.getProcessStarter -/
+def app_process__Process_getProcessStarter : List String := [
+  "func (p *Process) getProcessStarter() func() error {",
+  "return func() error {",
+  "p.command = p.getCommander()",
+  "p.command.SetEnv(p.getProcessEnvironment())",
+  "p.command.SetDir(p.procConf.WorkingDir)",
+  "if p.isMain || (p.procConf.IsElevated && !p.isTuiEnabled) {",
+  "p.command.AttachIo()",
+  "} else {",
+  "p.command.SetCmdArgs()",
+  "stdout, _ := p.command.StdoutPipe()",
+  "p.stdOutDone = make(chan struct{})",
+  "go p.handleOutput(stdout, \"stdout\", p.handleInfo, p.stdOutDone)",
+  "if !p.procConf.IsTty {",
+  "stderr, _ := p.command.StderrPipe()",
+  "p.stdErrDone = make(chan struct{})",
+  "go p.handleOutput(stderr, \"stderr\", p.handleError, p.stdErrDone)",
+  "}",
+  "}",
+  "if p.procConf.IsElevated && p.isTuiEnabled {",
+  "stdin, err := p.command.StdinPipe()",
+  "if err != nil {",
+  "}",
+  "p.stdin = stdin",
+  "}",
+  "return p.command.Start()",
+  "}",
   "}"]
 
 /-- src/app/process.go:Process.getRestarts -/
